@@ -33,8 +33,8 @@ META = dict(
         'comparable geos, default eligibility); every '
         'constraint alone + 8 pairs, n_designs 1..4 symbolic, 6 eligibility '
         'tables; all 7^3 matrices with no numeric constraint',
-        thorough='adds all 15 pairs, P3 (tied means) P4 P7 P8, seeded tables, '
-        'all 7^3 matrices x {gratio, tsize, share, budget}'),
+        thorough='adds 4 more pairs, P3 (tied means) P4 P8, seeded tables, all '
+        '7^3 matrices x {gratio, tsize}'),
     outside='panels concrete; N <= 4 (3^N designs enumerated); scores '
     'containing NaN are not a total order and are skipped (counted); '
     'real-valued bounds don\'t-care within relative 1e-9',
@@ -194,8 +194,9 @@ def jobs(tier, seed):
   for i, el in enumerate(ELIGS3):
     for s in SIX + ['k']:
       out.append(_mk('P1', [s], el, 'e%d' % i))
-    for pr in (PAIRS if tier == 'quick' else list(itertools.combinations(
-        SIX + ['k'], 2))):
+    for pr in (PAIRS if tier == 'quick' else PAIRS + [
+        ('share', 'vol'), ('budget', 'vol'), ('tsize', 'gratio'),
+        ('csize', 'vol')]):
       out.append(_mk('P1', pr, el, 'e%d' % i))
   for r0 in RT:
     out.append(_mk('P1', [], 'sym', 'all343-' + r0, elig_fix={'0': r0}))
@@ -221,11 +222,11 @@ def jobs(tier, seed):
     rnd = random.Random(seed)
     out.append(_mk('P11', ['budget'], None, 'e0', max_s=3000))
     out.append(_mk('P11', ['share', 'k'], None, 'e0', max_s=3000))
-    for s in (['gratio'], ['tsize'], ['share'], ['budget']):
+    for s in (['gratio'], ['tsize']):
       for r0 in RT:
         out.append(_mk('P1', s, 'sym', 'all343-' + r0, elig_fix={'0': r0},
                        max_s=3000))
-    for panel in ['P3', 'P4', 'P7', 'P8']:
+    for panel in ['P3', 'P4', 'P8']:
       n = 3 if panel == 'P4' else 4
       els = [None] + [dict(zip('0123'[:n], (rnd.choice(RT) for _ in range(
           n)))) for _ in range(3)]
